@@ -41,7 +41,8 @@ CONFIGS = {
                   ("c1g2", "channel", "NoWakers", "S_c1", "M_cg2"),
                   ("c1far", "channel", "WB_far", "S_c1", "M_c1"),
                   ("cctl", "channel", "WB_ctl", "S_ctl", "M_c1"),
-                  ("cext", "channel", "WB_ext", "S_ext", "M_c1")],
+                  ("cext", "channel", "WB_ext", "S_ext", "M_c1"),
+                  ("cecho", "channel", "NoWakers", "S_c2", "M_cg", "CECHO")],
         "thorough": [("c3g", "channel", "NoWakers", "S_c3", "M_cg"),
                      ("c2", "channel", "NoWakers", "S_c2", "M_c1")],
     },
@@ -67,9 +68,11 @@ def write_cfg(name, kind, wb, sc, ms, ordset, orddrain, export, hp="NoHProg"):
     path = os.path.join(common.SPECS, "_gen_%s.cfg" % name)
     inv = "NoViolation Published NoDeadlock NoPanic" + (" ExportInv" if export else "")
     with open(path, "w") as f:
-        f.write("SPECIFICATION Spec\nCONSTANTS\n  Kind = \"%s\"\n  WakerBits <- %s\n  Scripts <- %s\n  MainScript <- %s\n  HProg <- %s\n"
+        cecho = "TRUE" if hp == "CECHO" else "FALSE"
+        hpn = "NoHProg" if hp == "CECHO" else hp
+        f.write("SPECIFICATION Spec\nCONSTANTS\n  Kind = \"%s\"\n  WakerBits <- %s\n  Scripts <- %s\n  MainScript <- %s\n  HProg <- %s\n  CEcho = %s\n"
                 "  OrdSet = \"%s\"\n  OrdDrain = \"%s\"\nINVARIANT %s\n%sCHECK_DEADLOCK FALSE\n"
-                % (kind, wb, sc, ms, hp, ordset, orddrain, inv, "" if export else "VIEW View\n"))
+                % (kind, wb, sc, ms, hpn, cecho, ordset, orddrain, inv, "" if export else "VIEW View\n"))
     return os.path.basename(path)
 
 
@@ -218,7 +221,7 @@ def rand_scripts(rng, kind):
             return {"kind": "channel", "wakers": [8], "threads": threads, "main": main}
         if rng.random() < 0.6:
             main.insert(rng.randrange(0, len(main) + 1), ["dropguard"])
-        return {"kind": "channel", "wakers": [], "threads": threads, "main": main}
+        return {"kind": "channel", "wakers": [], "threads": threads, "main": main, "cecho": rng.random() < 0.2}
     ops = []
     for _ in range(rng.randrange(1, 5)):
         ops.append(rng.choice([["recv"], ["recv"], ["send", rng.randrange(1, 9)], ["cancel"]]))
